@@ -191,7 +191,8 @@ pub fn check(ctx: &Ctx) -> i32 {
     let lens_opus = [480u32, 960, 1920, 2880];
     let lens_aac = [1024u32, 2048];
     let mut conv: Vec<(ACodec, Vec<u32>)> = vec![];
-    for (ac, alpha) in [(ACodec::Opus, &lens_opus[..]), (ACodec::AacLc, &lens_aac[..])] {
+    // (every AAC profile: the automatic clock runs on the configured rate whatever the profile)
+    for (ac, alpha) in [(ACodec::Opus, &lens_opus[..]), (ACodec::AacLc, &lens_aac[..]), (ACodec::AacHe, &lens_aac[..]), (ACodec::AacHev2, &lens_aac[..]), (ACodec::AacMain, &lens_aac[..])] {
         let mut frontier: Vec<Vec<u32>> = vec![vec![]];
         for _ in 0..5 {
             frontier = frontier.iter().flat_map(|s| alpha.iter().map(move |&a| { let mut q = s.clone(); q.push(a); q })).collect();
